@@ -4,6 +4,16 @@ Import ListNotations.
 From Glb Require Import Lib.NetIP Lib.CidrSet Model.Filter Proofs.FilterP Model.FilterConc Proofs.FilterConcP.
 Open Scope N_scope.
 
+(** No atomic section of any execution panics: [crashed] is set by the semantics when a
+    critical section of Model/Filter.v returns [None] (index out of range, write to a nil
+    map, short slice) — no interleaving of any programs reaches such a state, and from a
+    reachable state every enabled label leads to a state that has not crashed. *)
+Theorem C12_no_crash : forall progs ls s,
+  crun (cinit progs) ls = Some s ->
+  crashed s = false /\ forall l s', step s l = Some s' -> crashed s' = false.
+Proof. intros progs ls s H. split; [exact (no_crash _ _ _ H) | intros l s'; exact (no_crash_step _ _ _ _ _ H)]. Qed.
+Print Assumptions C12_no_crash.
+
 (** Any number of threads, any programs of Add / Remove / Contains calls, any
     interleaving [pre] of their atomic actions up to a state [s], then any interleaving
     that starts with thread [t]'s [LoadMatchAll] (the first action of a Contains call)
@@ -33,14 +43,14 @@ Print Assumptions C12_lookup_sound.
 Theorem C12_quiescent : forall progs,
   disjoint_owners progs ->
   forall ls s, crun (cinit progs) ls = Some s -> finished s = true ->
-  forall ip, contains (filt s) ip = spec_contains (concat (map updates_of progs)) ip.
+  forall ip, contains (filt s) ip = Some (spec_contains (concat (map updates_of progs)) ip).
 Proof. exact quiescent. Qed.
 Print Assumptions C12_quiescent.
 
 (** Without the ownership hypothesis, and at every reachable state: the filter answers as
     the live set of the linearised history (the order in which the atomic sections ran). *)
 Theorem C12_linearisable : forall progs ls s,
-  crun (cinit progs) ls = Some s -> forall ip, contains (filt s) ip = spec_contains (lin s) ip.
+  crun (cinit progs) ls = Some s -> forall ip, contains (filt s) ip = Some (spec_contains (lin s) ip).
 Proof. exact quiescent_linearised. Qed.
 Print Assumptions C12_linearisable.
 
@@ -48,13 +58,13 @@ Print Assumptions C12_linearisable.
     and every step uses up one of finitely many actions, so all executions are finite. *)
 Theorem C12_no_stuck : forall progs ls s t th,
   crun (cinit progs) ls = Some s -> nth_error (threads s) t = Some th -> thread_finished th = false ->
-  exists l s', thread_of l = t /\ step s l = Some s'.
+  exists l s', thread_of l = t /\ step s l = Some s' /\ crashed s' = false.
 Proof. exact no_stuck. Qed.
 Print Assumptions C12_no_stuck.
 
-Theorem C12_terminates : forall ls s v f,
-  exec s ls = Some (v, f) -> (length ls + measure f <= measure s)%nat.
-Proof. exact exec_bounded. Qed.
+Theorem C12_terminates : forall progs ls v f,
+  exec (cinit progs) ls = Some (v, f) -> (length ls + measure f <= measure (cinit progs))%nat.
+Proof. exact exec_bounded_init. Qed.
 Print Assumptions C12_terminates.
 
 (* ---- non-vacuity ---- *)
@@ -82,10 +92,10 @@ Definition sched3 : list label :=
 
 Example C12_example_run :
   match crun (cinit progs3) sched3 with
-  | Some s => (finished s, results_of s 1, mode_maps (filt s), length (lin s))
-  | None => (false, [], false, 0%nat)
+  | Some s => (finished s, results_of s 1, mode_maps (filt s), length (lin s), crashed s)
+  | None => (false, [], false, 0%nat, true)
   end
-  = (true, [([10;0;3;9], true); (v4mapped [11;0;0;1], true); ([10;1;43;1], true)], true, 305%nat).
+  = (true, [([10;0;3;9], true); (v4mapped [11;0;0;1], true); ([10;1;43;1], true)], true, 305%nat, false).
 Proof. vm_compute. reflexivity. Qed.
 
 Example C12_example_disjoint_owners_final :
@@ -115,4 +125,15 @@ Example C12_example_call_segment :
   | None => (0%nat, [], [], false, [], false)
   end
   = (4%nat, [], [([10;0;3;9], true)], true, [false; false; true; true], true).
+Proof. vm_compute. reflexivity. Qed.
+
+(** the crash outcome of the semantics is real: from a (non-reachable) state whose filter is in
+    map mode with nil maps, a LockedAdd crashes the process and then nothing is enabled *)
+Example C12_example_model_can_crash :
+  let bad := mkC (mkSt false true 0 (repeat (0, 0) 256) (repeat None 32)) []
+                 [mkT [] [CUpd (Add (nth_net 1)); CLookup [10;0;1;1]] None []] false in
+  match step bad (LockedAdd 0 (nth_net 1)) with
+  | Some s' => (crashed s', step s' (LoadMatchAll 0))
+  | None => (false, None)
+  end = (true, None).
 Proof. vm_compute. reflexivity. Qed.
